@@ -130,7 +130,7 @@ func (p Plugin) GetNodesDeployCapacity(ctx context.Context, nodenames []string, 
 		nodeDeployCapacity := p.doGetNodeDeployCapacity(nodeResourceInfo, req)
 		if nodeDeployCapacity.Capacity > 0 {
 			nodesDeployCapacityMap[nodename] = nodeDeployCapacity
-			if total == math.MaxInt || nodeDeployCapacity.Capacity == math.MaxInt {
+			if total == math.MaxInt || nodeDeployCapacity.Capacity == math.MaxInt || total > math.MaxInt-nodeDeployCapacity.Capacity {
 				total = math.MaxInt
 			} else {
 				total += nodeDeployCapacity.Capacity
